@@ -272,6 +272,8 @@ def run_model(name, module, constants, invariants, binp=None, workers=8, timeout
     if replay and expect_cases and "summary" in res and not simulate:
         if isinstance(expect_cases, str) and expect_cases.startswith("distinct-"):
             want = (info["distinct"] or 0) - int(expect_cases.split("-")[1])
+        elif expect_cases == "noninitial":
+            want = (info["distinct"] or 0) - info.get("initial", 1)
         elif expect_cases == "sweep":
             # one case per class state plus the universe; the class-less initial states print nothing
             want = (info["distinct"] or 0) - info.get("initial", 1) + 1
